@@ -13,6 +13,11 @@ namespace libphysica
 // 1.1. Uniform distribution
 double PDF_Uniform(double x, double x_min, double x_max)
 {
+	if(x_min >= x_max)
+	{
+		std::cerr << "Error in libphysica::PDF_Uniform(): The interval is empty (x_min >= x_max)." << std::endl;
+		std::exit(EXIT_FAILURE);
+	}
 	if(x < x_min || x > x_max)
 		return 0.0;
 	else
@@ -21,6 +26,11 @@ double PDF_Uniform(double x, double x_min, double x_max)
 
 double CDF_Uniform(double x, double x_min, double x_max)
 {
+	if(x_min >= x_max)
+	{
+		std::cerr << "Error in libphysica::CDF_Uniform(): The interval is empty (x_min >= x_max)." << std::endl;
+		std::exit(EXIT_FAILURE);
+	}
 	if(x < x_min)
 		return 0.0;
 	else if(x > x_max)
@@ -32,16 +42,31 @@ double CDF_Uniform(double x, double x_min, double x_max)
 // 1.2 Normal distribution
 double PDF_Gauss(double x, double mu, double sigma)
 {
+	if(sigma <= 0.0)
+	{
+		std::cerr << "Error in libphysica::PDF_Gauss(): The standard deviation is not positive." << std::endl;
+		std::exit(EXIT_FAILURE);
+	}
 	return 1.0 / sqrt(2.0 * M_PI) / sigma * exp(-pow((x - mu) / sigma, 2.0) / 2.0);
 }
 
 double CDF_Gauss(double x, double mu, double sigma)
 {
+	if(sigma <= 0.0)
+	{
+		std::cerr << "Error in libphysica::CDF_Gauss(): The standard deviation is not positive." << std::endl;
+		std::exit(EXIT_FAILURE);
+	}
 	return 0.5 * (1.0 + erf((x - mu) / (sqrt(2) * sigma)));
 }
 
 double Quantile_Gauss(double p, double mu, double sigma)
 {
+	if(sigma < 0.0)
+	{
+		std::cerr << "Error in libphysica::Quantile_Gauss(): The standard deviation is negative." << std::endl;
+		std::exit(EXIT_FAILURE);
+	}
 	return mu + sqrt(2.0) * sigma * Inv_Erf(2.0 * p - 1.0);
 }
 
